@@ -543,8 +543,21 @@ func tsmodelQuote(s string) string { return Quote(s) }
 func C16() int {
 	r := findings.New("C16")
 	defer drive.Cleanup()
-	deadline := r.Deadline(8*time.Minute, 40*time.Minute)
+	deadline := r.Deadline(10*time.Minute, 40*time.Minute)
 	var items []c16Item
+	{ // statements that may emit no code as the whole content of every block kind; operand origins per facility (c16spaces.go);
+		// first in the list: small programs that no other family contains, judged even when a loaded machine makes the run hit its deadline
+		eb, ec := c16EmptyBlockPrograms()
+		items = append(items, eb...)
+		for _, k := range drive.SortedKeys(ec) {
+			r.Set("emptyblk_"+k, ec[k])
+		}
+		ob, oc := c16OriginPrograms()
+		items = append(items, ob...)
+		for _, k := range drive.SortedKeys(oc) {
+			r.Set("origin_"+k, oc[k])
+		}
+	}
 	addSk := func(label string, kinds []skKind, n, d int) {
 		memo := map[[3]int][][]skNode{}
 		seqs := enumSeqs(kinds, n, d, 3, memo)
@@ -556,8 +569,10 @@ func C16() int {
 	}
 	addSk("n1_full", fullKinds(), 1, 1)
 	addSk("n2_full", fullKinds(), 2, 2)
-	addSk("n3_control", controlKinds(), 3, 3)
 	if r.Thorough() {
+		// (quick leaves the three-construct control skeletons to C01, which executes them on Bash, and C05, which
+		// executes them under the cmd.exe model: a malformed script fails there too)
+		addSk("n3_control", controlKinds(), 3, 3)
 		addSk("n3_medium", mediumKinds(), 3, 3)
 		addSk("n4_control", controlKinds(), 4, 3)
 	}
@@ -653,6 +668,18 @@ func C16() int {
 	scratch := drive.NewDir("c16")
 	var mu sync.Mutex
 	done, accepted, capped := 0, 0, false
+	if fam := os.Getenv("VERIF_C16_FAMILIES"); fam != "" { // development aid: judge only the named program groups (never exhaustive)
+		var u []c16Item
+		for _, it := range items {
+			for _, f := range strings.Split(fam, ",") {
+				if strings.Fields(it.name)[0] == f {
+					u = append(u, it)
+				}
+			}
+		}
+		items, capped = u, true
+		r.Set("cap_hit", "restricted to the program groups "+fam+" by VERIF_C16_FAMILIES")
+	}
 	groups := map[string]int{}
 	drive.Par(len(items), func(i int) {
 		if past(deadline) {
@@ -695,7 +722,7 @@ func C16() int {
 		}
 		if !rb.OK() || !rw.OK() {
 			// C16 speaks about accepted programs; generated programs are meant to be accepted
-			if strings.HasPrefix(it.name, "builtin") || strings.HasPrefix(it.name, "cross") || strings.HasPrefix(it.name, "tiny") || strings.HasPrefix(it.name, "skeleton") || strings.HasPrefix(it.name, "empty") || strings.HasPrefix(it.name, "imports") {
+			if strings.HasPrefix(it.name, "builtin") || strings.HasPrefix(it.name, "cross") || strings.HasPrefix(it.name, "tiny") || strings.HasPrefix(it.name, "skeleton") || strings.HasPrefix(it.name, "empty") || strings.HasPrefix(it.name, "imports") || strings.HasPrefix(it.name, "emptyblk") || strings.HasPrefix(it.name, "origin") {
 				fail("generated-program-rejected", rb.Err+" / "+rw.Err, "")
 			}
 			return
@@ -739,7 +766,7 @@ func C16() int {
 	r.Set("evaluations", done)
 	r.Set("distinct_nontrivial", len(items))
 	r.Set("exhaustive", !capped)
-	r.Set("rule", "union of the program enumerators of C01 (control skeletons, with a marker print in every block, behind every construct and in front of every break/continue), C02, C03, C04 at larger bounds than their executing checks, plus every builtin that cannot be executed blindly (input, read, write, exists, @app chains, copy, panic) in every statement position and context, empty blocks of every kind, 8 chained functions, nesting depth 6, and the cross-feature space of cross.go. Oracle Bash: `bash -n` accepts the script. Oracle Batch (structural reading of the script text): parentheses outside quotes balance, every goto/call target label exists, no label is defined twice, every helper routine present is reachable from a call and every called routine is present, and jump containment independent of label naming: located through the marker prints, the jump emitted for each continue lands in the head region of its own loop, for each break in the tail region of its own loop, and every other marker-crossing jump of a construct lands on its own head (loops) or directly behind it. Distinct by source text.")
+	r.Set("rule", "union of the program enumerators of C01 (control skeletons, with a marker print in every block, behind every construct and in front of every break/continue), C02, C03, C04 at larger bounds than their executing checks, plus every builtin that cannot be executed blindly (input, read, write, exists, @app chains, copy, panic) in every statement position and context, empty blocks of every kind, 8 chained functions, nesting depth 6, the cross-feature space of cross.go, and two spaces of c16spaces.go: (E, group emptyblk) statements that may emit no code - every compound statement with empty bodies (if, if-else, else-if chains, an if nested in a then / else / case / default, a switch in an if, a switch without cases / with only an empty default / with empty cases over a tag that is absent, an int, bool or string variable or a literal, tag-less cases) x every condition kind (bool variable, literal true / false, parenthesised once and twice, negated variable and literal, int comparison, bool comparison, &&, call, slice element, bool parameter; two-condition chains: both equal or one of them the plain variable), plus three code-less expression statements - as the WHOLE content of every block kind (top level, then, else-if, else, else behind an empty then, case, default, tag-less case, function without parameters, with parameters, with a result, loop bodies of the condition / three-part / range-over-slice / range-over-string forms, then / else / loop body inside a function, then inside a loop): every statement alone, every ordered pair over a 12-statement sub-alphabet, every ordered triple over a 5-statement sub-alphabet (counters emptyblk_*); (O, group origin) sole-facility programs for every facility that owns a helper routine or a required-flag in a back-end (string length and range over a string, string index / slices, string comparison, concatenation, itoa, print, panic, write, read, exists, input prompt, plain / piped / captured commands, slice literal, slice length, element, range, element assignment, copy; several also used twice in one program) x the ORIGIN of every operand, all vectors (literal written directly, parenthesised literal, variable, result of a user function, operation on literals, operation on a variable, slice element, function parameter, itoa / negated literal; three-operand facilities over five of them; subscript subjects and copy destinations are names) x site (top level, a function that is called, a function that is never called) x use of the value (defined only / printed) (counters origin_*). Oracle Bash: `bash -n` accepts the script. Oracle Batch (structural reading of the script text): parentheses outside quotes balance, every goto/call target label exists, no label is defined twice, each helper routine is contained exactly when it is used (a routine that is present but reachable from no call outside the helper routines is a failure, a call of a routine that is absent is a failure), and jump containment independent of label naming: located through the marker prints, the jump emitted for each continue lands in the head region of its own loop, for each break in the tail region of its own loop, and every other marker-crossing jump of a construct lands on its own head (loops) or directly behind it. Distinct by source text.")
 	r.Assumef("Batch well-formedness is decided on the script text (no cmd.exe); string contents in these programs contain no quotes or parentheses (C08 owns data)")
 	return finish(r)
 }
